@@ -125,7 +125,9 @@ thread_local! {
         const { std::cell::RefCell::new(None) };
 }
 
-// the real controller; every call is forwarded, the three message handlers are counted
+const SENTINEL: ClockId = ClockId(u64::MAX);
+
+// the real controller; every call is forwarded (a usability message for SENTINEL is the harness's drain marker)
 struct Ctl {
     inner: KalmanClockController<RecClock>,
     processed: Arc<AtomicUsize>,
@@ -173,16 +175,17 @@ impl InternalTimeSyncController for Ctl {
     }
     fn remove_source(&mut self, id: ClockId) {
         self.inner.remove_source(id);
-        self.processed.fetch_add(1, Ordering::SeqCst);
     }
     fn source_update(&mut self, id: ClockId, usable: bool) {
+        if id == SENTINEL {
+            // the harness's drain marker: the channel is FIFO, so everything sent before it has been handled
+            self.processed.fetch_add(1, Ordering::SeqCst);
+            return;
+        }
         self.inner.source_update(id, usable);
-        self.processed.fetch_add(1, Ordering::SeqCst);
     }
     fn source_message(&mut self, id: ClockId, m: KalmanSourceMessage) -> InternalStateUpdate<KalmanControllerMessage> {
-        let r = self.inner.source_message(id, m);
-        self.processed.fetch_add(1, Ordering::SeqCst);
-        r
+        self.inner.source_message(id, m)
     }
     fn time_update(&mut self) -> InternalStateUpdate<KalmanControllerMessage> {
         self.inner.time_update()
@@ -264,10 +267,8 @@ fn verif_c37_driver() {
                             Handle::One(wrapper.add_one_way_source(ClockId(id), SourceConfig::default(), 1e-3, 1e-3, Some(1.0)))
                         };
                         periodic.insert(id, t[i] == "O");
-                        // a second add under the same id drops the previous wrapper first (its Dropped message counts)
-                        if handles.insert(id, h).is_some() {
-                            sent += 1;
-                        }
+                        // (a second add under the same id drops the previous wrapper: its Dropped message follows the add)
+                        handles.insert(id, h);
                         i += 2;
                     }
                     "M" | "m" => {
@@ -287,7 +288,6 @@ fn verif_c37_driver() {
                         } else {
                             raw.send((ClockId(id), WrapperMessage::SourceMessage(KalmanSourceMessage { inner: s }))).ok();
                         }
-                        sent += 1;
                         i += 9;
                     }
                     "U" | "u" => {
@@ -301,7 +301,6 @@ fn verif_c37_driver() {
                         } else {
                             raw.send((ClockId(id), WrapperMessage::UsabilityChange(b))).ok();
                         }
-                        sent += 1;
                         i += 3;
                     }
                     "D" | "d" => {
@@ -311,10 +310,11 @@ fn verif_c37_driver() {
                         } else {
                             raw.send((ClockId(id), WrapperMessage::Dropped)).ok();
                         }
-                        sent += 1;
                         i += 2;
                     }
                     "R" => {
+                        raw.send((SENTINEL, WrapperMessage::UsabilityChange(true))).ok();
+                        sent += 1;
                         let mut spins = 0;
                         while processed.load(Ordering::SeqCst) < sent && spins < 100000 {
                             tokio::task::yield_now().await;
